@@ -84,7 +84,7 @@ Trunc(os) == LET is == {i \in 1 .. Len(os) : os[i].k \notin {"v", "n"}} IN
              IF is = {} THEN os ELSE SubSeq(os, 1, CHOOSE i \in is : \A j \in is : i <= j)
 
 RECURSIVE HasOpaque(_)
-HasOpaque(v) == CASE v.t = "opaque" -> TRUE
+HasOpaque(v) == CASE v.t \in {"opaque", "big"} -> TRUE          \* message text of a built-in error, or a number outside the universe
                   [] v.t = "arr" -> \E i \in 1 .. Len(v.v) : HasOpaque(v.v[i])
                   [] v.t = "obj" -> \E i \in 1 .. Len(v.v) : HasOpaque(v.v[i])
                   [] OTHER -> FALSE
